@@ -28,13 +28,70 @@ def _result_name(f) -> str:
     raise Unsupported(f'{f.q}: expected one `return <name>`')
 
 
+def _copy_like(f: Fn, d, res: str):
+    """Is `res = self.__class__(...)` followed by `res.__dict__.update({k: ... for k, v in self.__dict__.items()})` as good as
+    self.copy() for reindex()?  Every entry must be deep-copied, except the arrays of the variables (the `'_' + name`
+    entries for the names in `index`), which reindex() rebuilds one by one.  (True/False/None, reason)."""
+    v = d.ast.value
+    if not (isinstance(v, ast.Call) and text(v.func) in ('self.__class__', 'type(self)')):
+        return (False, 'the result does not start as a copy of the object') if (isinstance(v, ast.Name) and v.id == 'self') else (None, 'not a new instance of the class')
+    ups = [n for n in f.cfg.nodes if n.kind == 'stmt' and n.ast is not None and d.id in f.dom[n.id] and isinstance(n.ast, ast.Expr)
+           and method_call(n.ast.value, 'update') and text(n.ast.value.func.value) == f'{res}.__dict__']
+    if len(ups) != 1 or len(ups[0].ast.value.args) != 1:
+        return (None, f'{len(ups)} `{res}.__dict__.update(...)` after it')
+    dc = f.expand(ups[0].id, ups[0].ast.value.args[0], depth=2)
+    if not (isinstance(dc, ast.DictComp) and len(dc.generators) == 1 and not dc.generators[0].ifs and text(dc.generators[0].iter) == 'self.__dict__.items()'
+            and isinstance(dc.generators[0].target, ast.Tuple) and len(dc.generators[0].target.elts) == 2):
+        return (None, f'the update `{text(dc)[:60]}` is not a comprehension over every entry of self.__dict__')
+    k_, v_ = (text(e) for e in dc.generators[0].target.elts)
+    if text(dc.key) != k_:
+        return (None, 'entries are stored under other keys')
+    val = dc.value
+    deep = lambda e: is_call(e, 'copy.deepcopy', 'deepcopy') and len(e.args) >= 1 and text(e.args[0]) == v_
+    if deep(val):
+        return (True, 'every entry deep-copied')
+    if isinstance(val, ast.IfExp):
+        test, a, b = val.test, val.body, val.orelse
+        if isinstance(test, ast.UnaryOp) and isinstance(test.op, ast.Not):
+            test, a, b = test.operand, b, a
+        if not deep(b):
+            return (False, f'entries other than the skipped ones are `{text(b)[:40]}`, not deep copies')
+        # which entries are skipped?  Only the variables' arrays may be
+        if isinstance(test, ast.Compare) and len(test.ops) == 1 and isinstance(test.ops[0], ast.In) and text(test.left) == k_:
+            coll = test.comparators[0]
+            if isinstance(coll, ast.Name) and coll.id in f.lf.locals and coll.id not in f.mutated_in_place():
+                vals = f.lf.values_reaching(ups[0].id, coll.id)
+                if len(vals) == 1 and vals[0][1] is not None:
+                    coll = vals[0][1]
+            if isinstance(coll, (ast.SetComp, ast.ListComp, ast.GeneratorExp)) and len(coll.generators) == 1 and not coll.generators[0].ifs \
+                    and text(coll.generators[0].iter) in ("self.__dict__['index']", 'self.index') \
+                    and text(coll.elt) in (f"'_' + {text(coll.generators[0].target)}", f"f'_{{{text(coll.generators[0].target)}}}'"):
+                return (True, 'every entry deep-copied except the arrays of the variables in `index`, which are rebuilt')
+            return (None, f'skipped keys `{text(coll)[:60]}` not recognised as the variables of `index`')
+        names = {x.id for x in ast.walk(test) if isinstance(x, ast.Name)}
+        if v_ in names and k_ not in names:
+            return (False, f'entries are left out by what they hold (`{text(test)[:50]}`), not by being a variable of `index`: an attribute with such a value is not carried over '
+                           f'(it comes back as `{text(a)[:20]}`), only variables are rebuilt afterwards')
+        return (None, f'skip test `{text(test)[:50]}` not read')
+    return (None, f'entry values `{text(val)[:50]}` not read')
+
+
 def r1_fresh(R) -> None:
     f = Fn(R, VR)
     res = _result_name(f)
     ds = f.assigns_to(res)
-    ok = len(ds) == 1 and is_self_call(ds[0].ast.value, 'copy') and not ds[0].ast.value.args
-    R.check(ok, VR, 'fresh:' + (text(ds[0].ast.value) if ds else '?'), 'the result starts as self.copy() (deep by C11.R2)',
-            f'`{res}` is `{text(ds[0].ast.value) if ds else "?"}`, not self.copy()', where=f.fi.where)
+    if not ds:
+        R.violation(VR, 'fresh:?', f'`{res}` is never assigned', where=f.fi.where)
+    for d in ds:
+        v = d.ast.value
+        if is_self_call(v, 'copy') and not v.args:
+            R.check(True, VR, 'fresh:' + text(v), 'the result starts as self.copy() (deep by C11.R2)', '', where=f.where(d))
+            continue
+        verdict, why = _copy_like(f, d, res)
+        if verdict is None:
+            raise Unknown(f'{VR}: `{res} = {text(v)[:60]}` - whether this is a deep copy of everything reindex() does not rebuild was not decided ({why})')
+        R.check(verdict, VR, 'fresh:' + text(v)[:50], 'the result starts as a deep copy of the object (variables aside, which are rebuilt)',
+                f'`{res}` is `{text(v)[:60]}`, not self.copy(): {why}', where=f.where(d))
     rets = f.returns()
     R.check(len(rets) == 1 and text(rets[0].ast.value) == res, VR, 'returns-new', 'the new object is returned', 'reindex does not return `reindexed`', where=f.fi.where)
     for q in (VR, MR, PR):
@@ -445,6 +502,13 @@ def r5_position_map(R) -> None:
     R.check(ok, VR, 'new-span', 'the result carries the new span', "`reindexed.__dict__['span'] = span` not found", where=f.fi.where)
 
 
+def r6_no_shared_state(R) -> None:
+    """reindex() works from its arguments and the object alone: a memoised (per-class) table it consults is only read,
+    never updated with one call's keywords (which every later call on the class would then see)."""
+    from rules import c11
+    c11.r5b_no_memoised_mutables(R, used_by=('reindex',))
+
+
 def run(R) -> None:
     R.explanation = (
         'C12: the result originates from self.copy() and no statement of any reindex writes through `self`; the dtype dispatch table '
@@ -458,3 +522,4 @@ def run(R) -> None:
     R.rule('C12.R3', lambda: r3_precedence(R))
     R.rule('C12.R4', lambda: r4_strict(R))
     R.rule('C12.R5', lambda: r5_position_map(R))
+    R.rule('C12.R6', lambda: r6_no_shared_state(R))
